@@ -231,6 +231,13 @@ pub fn arm_budget(n: Option<u64>) {
 }
 
 fn hook_yield(site: &'static str) {
+    if site.ends_with(".element") {
+        charge_budget();
+    }
+    with_cur(|s, t| s.sched_point(t, site));
+}
+
+fn charge_budget() {
     ELEMENT_BUDGET.with(|b| {
         if let Some(n) = b.get() {
             if n == 0 {
@@ -240,7 +247,6 @@ fn hook_yield(site: &'static str) {
             b.set(Some(n - 1));
         }
     });
-    with_cur(|s, t| s.sched_point(t, site));
 }
 
 /// Seam crossing from the harness's own stubs (sink, source, data). Not charged to the element
@@ -259,7 +265,7 @@ pub fn in_execution() -> bool {
 
 // ---- scheduler -----------------------------------------------------------------------------
 
-const RENDER_SITES: &[&str] = &["template.element", "sink.write", "data.get", "data.contains"];
+const RENDER_SITES: &[&str] = &["template.element", "sink.write", "data.get", "data.contains", "expr.evaluate", "filter.evaluate", "registers.get"];
 
 impl Inner {
     fn eligible(&self, t: usize) -> bool {
